@@ -4,7 +4,7 @@
 J="${1:-5}"; shift 2>/dev/null
 CHECKS="${*:-C01 C02 C03 C04 C05 C06 C07 C08 C09 C10 C11 C12 C13 C14 C15 C16 C17 C18 C19 C20}"
 OUT=$(mktemp -d /tmp/benall.XXXXXX)
-for d in /verif/benign/*/; do for c in $CHECKS; do echo "$(basename $d) $c"; done; done | xargs -P "$J" -L 1 sh -c '
+for d in /verif/benign/${BEN_GLOB:-*}/; do for c in $CHECKS; do echo "$(basename $d) $c"; done; done | xargs -P "$J" -L 1 sh -c '
   s="$0"; c="$1"; OUT="'"$OUT"'"
   VERIF_JOBS=4 /verif/tools/seedtest.sh "$c" "/verif/benign/$s/patch.diff" > "$OUT/$s.$c.log" 2>&1; rc=$?
   po="-"; grep -q "PROOF OBLIGATION FAILED" "$OUT/$s.$c.log" && po="proof-obligation-failed"
